@@ -390,3 +390,32 @@ CHECKS['C12'].update(text=CHECKS['C12']['text'] + ' W5: formatted values stored 
 CHECKS['C18'].update(text=CHECKS['C18']['text'] + ' H8: the read loop of qhashmd5_file - MD5Update is given the byte count the read returned, that '
                      'count is used only where it is known to be >= 0, a read never exceeds the remaining count, the file is positioned at the '
                      'offset first (a reader in another I/O form gives no instance).')
+
+
+# ---- wave-9 extensions (round for C16, refactor sets hashenc/tree2, fifth round for C01 C07 C11 C14) -----------------------------
+CHECKS['C16'].update(text=CHECKS['C16']['text'] + ' TB1 second clause: every copy-through of the input byte in the URL encoder sits in the arm '
+                     'selected by the pass-through table (no second arm copies a must-encode byte). TB17: the codecs keep no mutable '
+                     'static state (tables are const or only written before first use under a constant guard). TB18: every pair split '
+                     'off the query is handed to the table\'s put (no path from the split back to the loop head or out that skips it).')
+_F1 = (' F1: the retry loop around vsnprintf (shared formatting macro behind %s) keeps the buffer only on paths that established '
+       'result < size strictly - a path search over the expanded macro, any spelling of the test.')
+CHECKS['C01'].update(text=CHECKS['C01']['text'] + _F1 % 'putstrf' + ' T1/T2 also see comparator calls made through a thin static wrapper of '
+                     'tbl->compare; T3 resolves a single-assignment local that holds the link passed to a rotation.')
+CHECKS['C05'].update(text=CHECKS['C05']['text'] + _F1 % 'putstrf')
+CHECKS['C08'].update(text=CHECKS['C08']['text'] + _F1 % 'putstrf' + ' DL3: a chain pointer parked in the link fields of a not-yet-linked entry '
+                     'is not separated from the link-in call by a call that may free entries (the unique-key removal comes first).')
+CHECKS['C09'].update(text=CHECKS['C09']['text'] + _F1 % 'qgrow addstrf')
+CHECKS['C19'].update(text=CHECKS['C19']['text'] + _F1 % 'qstrdupf/qstrcatf')
+CHECKS['C04'].update(text=CHECKS['C04']['text'] + ' T5/T5c are interprocedural for static helpers: a climb or parent-link store inside a helper is '
+                     'discharged at every call site of the helper (reset on every path to the call); a local holding the caller\'s '
+                     'cursor link counts as the continuation test.')
+CHECKS['C07'].update(text=CHECKS['C07']['text'] + ' I10: writer/reader agreement on the key digest - for every key size at which the lookup '
+                     'compares the stored digest, the writer filled the digest buffer with qhashmd5 before storing it (decided per key '
+                     'size at the constants both functions compare the size with). I11: every release of an entry (remove_data) lies on '
+                     'paths that adjust a chain counter, unless the entry is a sole leading entry (count == 1) or the writer rolls back '
+                     'the entry it created itself. I12: a slot-array subscript by an index that was advanced or computed upward since '
+                     'its last comparison with maxslots is refused (the first slot after `idx + 1` included). I4 follows static helpers '
+                     'that clamp and return the copied amount; I7 moves to the call sites of such a helper.')
+CHECKS['C11'].update(text=CHECKS['C11']['text'] + ' I12 (ring-walk index compared with maxslots before it subscripts the slot array) and DL3 '
+                     '(insert position sampled after the last call that may free entries) as well.')
+CHECKS['C14'].update(text=CHECKS['C14']['text'] + ' A-macro-path recognises a typed local that holds the mutex operand.')
